@@ -76,7 +76,21 @@ enum Place {
     /// the same side; any amount if that limit is 0), however large the other end of the range is
     NearLow,
     NearHigh,
+    /// outside by 1 % of the documented tolerance of that side: "within the documented relative
+    /// tolerance", never an error (not placed if that limit is 0: the tolerance is relative)
+    TolLow,
+    TolHigh,
 }
+
+const PLACES: [Place; 7] = [
+    Place::Inside,
+    Place::OutsideLow,
+    Place::OutsideHigh,
+    Place::NearLow,
+    Place::NearHigh,
+    Place::TolLow,
+    Place::TolHigh,
+];
 
 #[derive(Clone, Copy, Debug, PartialEq)]
 enum Host {
@@ -113,6 +127,21 @@ fn expected_range(raw: (f64, f64), conv: Conv) -> Option<(f64, f64)> {
             Some((x.min(y), x.max(y)))
         }
         Conv::RatGeneral(_) | Conv::Form => None,
+    }
+}
+
+/// how many digits the conversion cancels at the ends of the raw range: (sum of the magnitudes
+/// of the terms) / |result|; large values mean that two correct calculators may differ by much
+/// more than an ulp, so placements measured in fractions of the tolerance are not judged there
+fn cancellation(raw: (f64, f64), conv: Conv) -> f64 {
+    let term = |x: f64, y: f64| -> f64 {
+        let r = (x + y).abs();
+        if r == 0.0 { f64::INFINITY } else { (x.abs() + y.abs()) / r }
+    };
+    match conv {
+        Conv::Linear(a, b) => term(a * raw.0, b).max(term(a * raw.1, b)),
+        Conv::RatLinear(_, c, f) => term(f * raw.0, -c).max(term(f * raw.1, -c)),
+        _ => 1.0,
     }
 }
 
@@ -316,6 +345,18 @@ fn place_limits(range: (f64, f64), place: Place) -> Option<(f64, f64)> {
                 let d = if hi == 0.0 { 1e-7 * w } else { 1e-4 * hi.abs() };
                 (inner.0, hi + d)
             }
+            Place::TolLow => {
+                if lo == 0.0 || !(lo - 1e-8 * lo.abs() < lo) {
+                    return None;
+                }
+                (lo - 1e-8 * lo.abs(), inner.1)
+            }
+            Place::TolHigh => {
+                if hi == 0.0 || !(hi + 1e-8 * hi.abs() > hi) {
+                    return None;
+                }
+                (inner.0, hi + 1e-8 * hi.abs())
+            }
         };
         if out.0.is_finite() && out.1.is_finite() && d_lo > 0.0 && d_hi > 0.0 {
             Some(out)
@@ -343,6 +384,10 @@ fn run_case(rec: &mut Recorder, c: &Case) {
     let exp = expected_range((rlo, rhi), c.conv);
     // for conversions that are not evaluated, place the limits relative to the raw range
     let range_for_placement = exp.unwrap_or((rlo, rhi));
+    if matches!(c.place, Place::TolLow | Place::TolHigh) && !(cancellation((rlo, rhi), c.conv) <= 1e4) {
+        rec.bump("skipped.tolerance_placement_with_cancellation");
+        return;
+    }
     let Some(limits) = place_limits(range_for_placement, c.place) else {
         rec.bump("skipped.range_not_finite");
         return;
@@ -379,7 +424,7 @@ fn run_case(rec: &mut Recorder, c: &Case) {
         rec.bump("unexpected_other_reports");
         rec.notes.push(format!("non-limit report for {key}: {}", clip(&other[0], 200)));
     }
-    let expect_error = exp.is_some() && c.place != Place::Inside;
+    let expect_error = exp.is_some() && !matches!(c.place, Place::Inside | Place::TolLow | Place::TolHigh);
     let sig_ctx = format!("{} {:?}", c.conv.label(), c.host);
     let witness = Json::obj()
         .with("case", Json::s(&key))
@@ -393,7 +438,13 @@ fn run_case(rec: &mut Recorder, c: &Case) {
             witness,
         );
     } else if !expect_error && !limit_errors.is_empty() {
-        let why = if exp.is_none() { "conversion is not evaluated" } else { "limits are inside the range" };
+        let why = if exp.is_none() {
+            "conversion is not evaluated"
+        } else if c.place == Place::Inside {
+            "limits are inside the range"
+        } else {
+            "limits are within the documented tolerance of the range"
+        };
         rec.violation(
             &format!("limit error although {why}: {sig_ctx}"),
             &format!("{key}: declared {limits:?}, expected range {exp:?}: {}", clip(&limit_errors[0], 300)),
@@ -497,7 +548,7 @@ fn grid() -> Vec<Case> {
     for host in HOSTS {
         for dt_idx in 0..DATATYPES.len() {
             for conv in &convs {
-                for place in [Place::Inside, Place::OutsideLow, Place::OutsideHigh, Place::NearLow, Place::NearHigh] {
+                for place in PLACES {
                     out.push(Case {
                         host,
                         dt_idx,
@@ -513,7 +564,7 @@ fn grid() -> Vec<Case> {
 
 pub fn run(args: &Args, rec: &mut Recorder) {
     rec.rule = "evaluation = one check() call on a module holding one element (MEASUREMENT, CHARACTERISTIC via FNC_VALUES, AXIS_PTS via AXIS_PTS_X, STD_AXIS AXIS_DESCR via AXIS_PTS_X, TYPEDEF_MEASUREMENT) of one of the 11 data types with one conversion and limits placed clearly inside / outside-low / outside-high of the range computed by an independent calculator; the LimitCheckError verdict must match. The grid is enumerated completely in both tiers; quick adds 100 000 and thorough 5 000 000 random coefficient draws (magnitudes 1e-6..1e6, both signs). distinct_nontrivial = distinct (host, type, conversion, placement) tuples".into();
-    rec.assumptions.push("'clearly' outside = by 1 % of max(range width, |limit|), i.e. 10^4 times the documented 1e-6 relative tolerance; limits exactly at the range are not judged; 'near' placements are outside by 100 x the documented tolerance of the same side (any amount if that limit is 0); ranges that are not finite in f64 have no outside placement".into());
+    rec.assumptions.push("'clearly' outside = by 1 % of max(range width, |limit|), i.e. 10^4 times the documented 1e-6 relative tolerance; limits exactly at the range are not judged; 'near' placements are outside by 100 x the documented tolerance of the same side (any amount if that limit is 0); 'tol' placements are outside by 1 % of the documented tolerance (1e-8 relative to the limit of that side; none if that limit is 0 or the conversion cancels more than four digits) and must not be reported; ranges that are not finite in f64 have no outside placement".into());
     let cases = grid();
     let n_grid = cases.len() as u64;
     let n_rand: u64 = if args.thorough { 5_000_000 } else { 100_000 };
@@ -550,6 +601,8 @@ pub fn run(args: &Args, rec: &mut Recorder) {
     rec.floor("two_module_files", 10);
     rec.floor("place.NearLow", 10);
     rec.floor("place.NearHigh", 10);
+    rec.floor("place.TolLow", 10);
+    rec.floor("place.TolHigh", 10);
 }
 
 fn random_case(rng: &mut Rng) -> Case {
@@ -568,6 +621,6 @@ fn random_case(rng: &mut Rng) -> Case {
         host: *rng.pick(&HOSTS),
         dt_idx: rng.below(DATATYPES.len()),
         conv,
-        place: *rng.pick(&[Place::Inside, Place::OutsideLow, Place::OutsideHigh, Place::NearLow, Place::NearHigh]),
+        place: *rng.pick(&PLACES),
     }
 }
